@@ -42,10 +42,11 @@ def sample_cfg(r, emphasis=None):
 
 
 def classify_hang(trace_path):
-    """D9 signature: a GVT round was initiated while some thread had already flushed its partial round
-    and moved on to the shutdown barrier (gvt_msg_drain stage 1 reached before the GvtInitiate)."""
-    flushed = set()
-    sig = False
+    """D9 signature: thread 0 opened a GVT round (GvtInitiate) after some thread had already left the main
+    loop; at the hang some thread is stuck flushing that round (gvt_msg_drain stage 0 without stage 1)
+    while another one waits in the shutdown barrier (stage 1 without stage 2)."""
+    exited, st = set(), {}
+    init_after_exit = False
     stop_seen = False
     for line in open(trace_path):
         try:
@@ -53,13 +54,17 @@ def classify_hang(trace_path):
         except Exception:
             continue
         ev = e.get("e")
-        if ev == "DrainStage" and e.get("st") == 1:
-            flushed.add(e["thr"])
+        if ev == "LoopExit":
+            exited.add(e["thr"])
+        elif ev == "DrainStage":
+            st.setdefault(e["thr"], set()).add(e.get("st"))
         elif ev == "Stop":
             stop_seen = True
-        elif ev in ("GvtInitiate", "GvtStart") and flushed:
-            sig = True
-    if sig:
+        elif ev == "GvtInitiate" and exited:
+            init_after_exit = True
+    flushing = [t for t in st if 0 in st[t] and 1 not in st[t]]
+    at_barrier = [t for t in st if 1 in st[t] and 2 not in st[t]]
+    if init_after_exit and flushing and at_barrier:
         return "D9-stop" if stop_seen else "D9"
     return None
 
@@ -200,13 +205,16 @@ class Campaign:
     def finish(self, level="model_checking", extra_cov=None, assumptions=None, rule=None):
         wall = time.time() - self.t0
         rc = 0
-        for k in self.known:
-            f = k["finding"]
-            print("KNOWN-FINDING: property=%s %s" % (f["property"], f["what"]))
-            break
         seen = set()
         for k in self.known:
-            seen.add(k["finding"].get("key") or k["finding"].get("match"))
+            f = k["finding"]
+            if f["id"] in seen:
+                continue
+            seen.add(f["id"])
+            if f["property"] in self.own:
+                print("KNOWN-FINDING: property=%s %s" % (f["property"], f["what"]))
+            else:
+                print("NOTE: known finding %s (property %s) was hit by runs of this check" % (f["id"], f["property"]))
         for v in self.violations:
             rp = vlib.save_replay(self.pid, "v%d" % (self.violations.index(v) + 1),
                                   [v.get("trace"), v["md"].get("txt"), v["md"].get("model"), v["md"].get("ref")],
